@@ -93,3 +93,8 @@ func init() {
 		},
 	})
 }
+
+func init() {
+	c := fw.Lookup("C02")
+	c.Phases = append(c.Phases, htmlExtraPhases(evalC02Traced, false)...)
+}
